@@ -452,3 +452,38 @@ func Print(a ...any) (int, error) { printed++; return 0, nil }
 //
 //go:norace
 func Printed() int64 { return printed }
+
+// Nested runs f (a re-entrant parse made by a code block) with its own step
+// budget; its steps are not charged to the enclosing run.
+//
+//go:norace
+func nestedEnter(cap int64) (c *Client, steps, oldCap int64, ab bool) {
+	c = cur
+	if c == nil {
+		return nil, 0, 0, false
+	}
+	steps, oldCap, ab = c.Steps, c.Cap, c.Aborted
+	c.Steps, c.Cap = 0, cap
+	return
+}
+
+//go:norace
+func nestedLeave(c *Client, steps, oldCap int64, ab bool) bool {
+	if c == nil {
+		return false
+	}
+	over := c.Aborted && !ab
+	c.Steps, c.Cap, c.Aborted = steps, oldCap, ab
+	return over
+}
+
+// Nested runs f under a separate step cap and reports whether f exceeded it.
+func Nested(cap int64, f func()) (exceeded bool) {
+	c, st, oc, ab := nestedEnter(cap)
+	defer func() {
+		recover()
+		exceeded = nestedLeave(c, st, oc, ab)
+	}()
+	f()
+	return
+}
